@@ -797,5 +797,5 @@ func TestCheck(t *testing.T) {
 		}
 	})
 	r.Count("fault_runs", nfault)
-	os.Exit(r.Finish(50))
+	h.Exit(r.Finish(50))
 }
